@@ -38,13 +38,13 @@ type InlineResult struct {
 }
 
 type inliner struct {
-	pkg     *packages.Package
-	info    *types.Info
-	decls   map[*types.Func]*ast.FuncDecl
-	origOf  map[ast.Node]ast.Node // copy -> original (for type information)
-	inlined map[string]bool
-	bodies  []inlinedBody
-	label   int
+	pkg        *packages.Package
+	info       *types.Info
+	decls      map[*types.Func]*ast.FuncDecl
+	origOf     map[ast.Node]ast.Node // copy -> original (for type information)
+	inlined    map[string]bool
+	bodies     []inlinedBody
+	label      int
 	curImports map[string]string // imports of the file being rewritten: local name -> path
 }
 
